@@ -102,6 +102,15 @@ pub struct VerifStreams {
 }
 
 impl Connection {
+    /// Queue raw frame bytes to be appended to the next packet sent in `space` (0 = Initial,
+    /// 1 = Handshake, 2 = Data). A PING is queued as well so that a packet is produced. This lets
+    /// a harness make an otherwise honest connection emit arbitrary, correctly protected frames.
+    pub fn verif_inject_frames(&mut self, space: usize, frames: Vec<u8>) {
+        let id = [SpaceId::Initial, SpaceId::Handshake, SpaceId::Data][space];
+        self.verif_inject[space].push_back(frames);
+        self.spaces[id].ping_pending = true;
+    }
+
     /// Read-only snapshot of internal accounting
     pub fn verif_probe(&self) -> VerifProbe {
         let mut timers = Vec::new();
